@@ -521,15 +521,48 @@ func domWatch(r *rand.Rand, seed int64, n int) {
 			}()
 		}
 		burst := r.Intn(2) == 0
+		// a second watcher of the same transaction that comes after the first and leaves before write number leaveAt
+		second := watchAt < total && r.Intn(3) == 0
+		leaveAt := -1
+		var cancel2 context.CancelFunc
+		done2 := make(chan struct{})
+		if second {
+			leaveAt = watchAt + r.Intn(total-watchAt)
+		}
 		for w := 0; w < total; w++ {
 			if w == watchAt {
 				openWatch()
+				if second {
+					var ctx2 context.Context
+					ctx2, cancel2 = context.WithCancel(ctxAll)
+					ch2 := make(chan configapi.TransactionEvent)
+					opts2 := []transaction.WatchOption{transaction.WithTransactionID(ids[0])}
+					if r.Intn(2) == 0 {
+						opts2 = append(opts2, transaction.WithReplay())
+					}
+					if err := e.Txs.Watch(ctx2, ch2, opts2...); err != nil {
+						panic(err)
+					}
+					go func() {
+						for range ch2 {
+						}
+						close(done2)
+					}()
+				}
 				if !burst {
 					time.Sleep(time.Duration(r.Intn(300)) * time.Microsecond)
 				}
 			}
+			if second && w == leaveAt {
+				cancel2()
+				select {
+				case <-done2:
+				case <-time.After(time.Second):
+				}
+				time.Sleep(300 * time.Microsecond) // its deferred unregistration
+			}
 			who := r.Intn(2)
-			if w == 0 {
+			if w == 0 || (second && w == total-1) {
 				who = 0
 			}
 			marker := fmt.Sprintf("m%d", w)
@@ -562,7 +595,7 @@ func domWatch(r *rand.Rand, seed int64, n int) {
 				lastA = "A" + en.marker
 			}
 		}
-		deadline := time.Now().Add(2 * time.Second)
+		deadline := time.Now().Add(time.Second)
 		for time.Now().Before(deadline) {
 			mu.Lock()
 			ok := len(delivered) > 0 && strings.HasSuffix(delivered[len(delivered)-1], lastA)
@@ -588,7 +621,14 @@ func domWatch(r *rand.Rand, seed int64, n int) {
 			d = strings.Join(delivered, ",")
 		}
 		mu.Unlock()
-		fmt.Fprintf(out, "h.watch\t%d:w%d\t%s\t%d\t%s\n", seed, i, strings.Join(ls, ","), watchAt, d)
+		tag := ""
+		if second {
+			tag = fmt.Sprintf("+second-watcher-left-before-write-%d", leaveAt)
+		}
+		fmt.Fprintf(out, "h.watch\t%d:w%d%s\t%s\t%d\t%s\n", seed, i, tag, strings.Join(ls, ","), watchAt, d)
+		if cancel2 != nil {
+			cancel2()
+		}
 	}
 }
 
@@ -637,6 +677,12 @@ type placeStore struct {
 	created   *configapi.Transaction
 	delivered []string
 	stopped   bool
+	// second > 0: once the handler's own watch is registered, a second Watch(WithTransactionID) on the same
+	// transaction is opened (what admin WatchTransactions with an ID does) and cancelled: 1 at once, 2 when the
+	// transaction is VALIDATED, 3 when it is COMMITTED, 4 only when the handler's context ends
+	second       int
+	secondReplay bool
+	fwdDone      chan struct{} // closed when the forwarder of the handler's watch has finished its bookkeeping
 }
 
 func reachedStage(tx *configapi.Transaction, stage int) bool {
@@ -698,8 +744,43 @@ func (p *placeStore) Watch(ctx context.Context, ch chan<- configapi.TransactionE
 	if err := p.Store.Watch(ctx, inner, opts...); err != nil {
 		return err
 	}
+	p.mu.Lock()
+	created := p.created
+	p.mu.Unlock()
+	if p.second > 0 && created != nil {
+		ctx2, cancel2 := context.WithCancel(context.Background())
+		ch2 := make(chan configapi.TransactionEvent)
+		opts2 := []transaction.WatchOption{transaction.WithTransactionID(created.ID)}
+		if p.secondReplay {
+			opts2 = append(opts2, transaction.WithReplay())
+		}
+		if err := p.Store.Watch(ctx2, ch2, opts2...); err == nil {
+			go func() {
+				for range ch2 {
+				}
+			}()
+			go func() {
+				switch p.second {
+				case 2:
+					waitStage(p.Store, created.ID, stValidated, time.Second)
+				case 3:
+					waitStage(p.Store, created.ID, stCommitted, time.Second)
+				case 4:
+					<-ctx.Done()
+				}
+				cancel2()
+			}()
+		} else {
+			cancel2()
+		}
+	}
+	fwdDone := make(chan struct{})
+	p.mu.Lock()
+	p.fwdDone = fwdDone
+	p.mu.Unlock()
 	go func() {
 		defer close(ch)
+		defer close(fwdDone)
 		for ev := range inner {
 			select {
 			case ch <- ev:
@@ -775,10 +856,12 @@ type e2eCase struct {
 	jitter   time.Duration
 	deadline time.Duration
 	want     []row
+	second   int
+	replay2  bool
 }
 
 func (w *world) run(id string, c e2eCase) {
-	ps := &placeStore{Store: w.e.Txs, waitFor: c.waitFor, jitter: c.jitter}
+	ps := &placeStore{Store: w.e.Txs, waitFor: c.waitFor, jitter: c.jitter, second: c.second, secondReplay: c.replay2}
 	ctx, cancel := context.WithTimeout(context.Background(), c.deadline)
 	var err error
 	var resp *gnmi.SetResponse
@@ -793,12 +876,22 @@ func (w *world) run(id string, c e2eCase) {
 	}
 	el := time.Since(t0)
 	tret := time.Now()
+	cancel() // what the gRPC server does when the handler returns
+	// the forwarder notes an event after the handler took it: let it finish before reading its notes
+	ps.mu.Lock()
+	fd := ps.fwdDone
+	ps.mu.Unlock()
+	if fd != nil {
+		select {
+		case <-fd:
+		case <-time.After(time.Second):
+		}
+	}
 	ps.mu.Lock()
 	ps.stopped = true
 	delivered := append([]string{}, ps.delivered...)
 	created := ps.created
 	ps.mu.Unlock()
-	cancel() // what the gRPC server does when the handler returns
 	oc := outcomeOf(err)
 	_ = el
 	if err == context.DeadlineExceeded {
@@ -951,6 +1044,18 @@ func domE2E(r *rand.Rand, seed int64, n int) {
 			c.waitFor = stNone
 			c.jitter = time.Duration(1+r.Intn(1500)) * time.Microsecond
 		}
+		w2 := ""
+		if r.Intn(4) == 0 {
+			// a second watcher on the request's transaction comes and goes while the request is in flight
+			c.second = 1 + r.Intn(4)
+			c.replay2 = r.Intn(2) == 0
+			w2 = "+w2" + []string{"", "now", "validated", "committed", "kept"}[c.second]
+			if r.Intn(3) != 0 {
+				pl = places[0]
+				c.waitFor, c.jitter = stNone, 0
+			}
+			c.deadline = 1500 * time.Millisecond
+		}
 		sc := r.Intn(12)
 		switch {
 		case sc <= 2: // success, one or two targets, updates and deletes
@@ -1035,6 +1140,7 @@ func domE2E(r *rand.Rand, seed int64, n int) {
 			w.devs[t1].Policy = func(n int, rq *fakes.DevReq) codes.Code { return code }
 			c.kind, c.sync, c.label, c.rbIndex = "rb", true, fmt.Sprintf("rollback-device-%s/%s", code, pl.name), idx
 		}
+		c.label += w2
 		emit(c)
 	}
 }
